@@ -212,6 +212,11 @@ def reshape(x: Array, /, shape: tuple[int, ...]) -> Array:
     if math.prod(x.shape) != math.prod(shape):
         raise ValueError(f"`math.prod(x.shape) != math.prod(shape)`, {x.shape=}, {shape=}")
 
+    if shape == tuple(x.shape):
+        # Nothing to do.  MLIR folds a rank-1 -> rank-1 `tensor.reshape` away, which would hand the operand's
+        # buffers to an `owns_memory=True` storage (freed twice: by the result and by their real owner).
+        return x
+
     ret_storage_format = _determine_format(x.format, dtype=x.dtype, union=len(shape) > x.ndim, out_ndim=len(shape))
     shape_array = _from_numpy(np.asarray(shape, dtype=np.uint64))
     out_tensor_type = ret_storage_format._get_mlir_type(shape=shape)
